@@ -119,8 +119,10 @@ def layer_rec(cfg):
 
 def main():
   rep = vlib.Report(PROP, "proof")
-  info = vlib.build_obligations(PROP)
-  errs = rep.obligations(info, "coqc -Q coq/theories QV coq/theories/Properties/C12.v")
+  from translate import convertgen
+  gen = convertgen.emit(vlib.GEN)
+  info = vlib.build_obligations(PROP, gen_files=[gen], extra_files=[os.path.join(vlib.COQ, "theories", "Link", "ConvertLink.v")])
+  errs = rep.obligations(info, "python3 tools/translate/convertgen.py coq/gen && coqc coq/gen/ConvertGen.v && coqc coq/theories/Link/ConvertLink.v && coqc coq/theories/Properties/C12.v")
   for e in errs:
     rep.violation("obligation-" + os.path.basename(e["file"]), "proof obligation no longer checks: " + e["error"][-400:],
                   {"file": e["file"]}, no_input=True)
